@@ -13,25 +13,36 @@ deriving Repr, Inhabited
 def rootsOf (order : List Ty) (pm : PMap) : List Ty :=
   order.filter (fun t => (look t pm).isSome)
 
-/-- `processNewSet` after the items have been recognised: fail if an item failed, build the
-    map, then check acyclicity -/
-def procSet (order : List Ty) (done : List (Nat × SetRes)) (d : SetDef) : SetRes :=
+/-- the imported sets of `d`, or the failures that stop `processNewSet` before any analysis -/
+def importsOf (done : List (Nat × SetRes)) (d : SetDef) : Except (List Err) (List (Nat × PMap)) :=
   let imps := d.imports.map (fun i => done[i]?)
   let failed := imps.filterMap (fun r => match r with
     | some (id, .err _) => some (Err.importFailed id)
     | none => some (Err.importFailed 0)
     | _ => none)
-  if failed ≠ [] then .err failed else
-  let impMaps := imps.filterMap (fun r => match r with
+  if failed ≠ [] then .error failed else
+  .ok (imps.filterMap (fun r => match r with
     | some (id, .ok pm _) => some (id, pm)
-    | _ => none)
-  match buildProviderMap d.args impMaps d.provs d.vals d.flds d.bnds with
+    | _ => none))
+
+/-- the `verifyAcyclic` call of `processNewSet` and what it turns into -/
+def checkAcyclic (order : List Ty) (pm : PMap) : List Err :=
+  let ac := verifyAcyclic pm (rootsOf order pm)
+  if ac.stk ≠ [] then [Err.cycle []]      -- unreachable (C07.va_terminates)
+  else ac.errs.map Err.cycle
+
+/-- `processNewSet` after the items have been recognised: fail if an item failed, build the
+    map, then check acyclicity -/
+def procSet (order : List Ty) (done : List (Nat × SetRes)) (d : SetDef) : SetRes :=
+  match importsOf done d with
   | .error es => .err es
-  | .ok (pm, sm) =>
-    let ac := verifyAcyclic pm (rootsOf order pm)
-    if ac.stk ≠ [] then .err [Err.cycle []]      -- unreachable (C07.va_terminates)
-    else if ac.errs ≠ [] then .err (ac.errs.map Err.cycle)
-    else .ok pm sm
+  | .ok impMaps =>
+    match buildProviderMap d.args impMaps d.provs d.vals d.flds d.bnds with
+    | .error es => .err es
+    | .ok (pm, sm) =>
+      match checkAcyclic order pm with
+      | [] => .ok pm sm
+      | es => .err es
 
 def procSets (order : List Ty) (ds : List SetDef) : List (Nat × SetRes) :=
   ds.foldl (fun done d => done ++ [(d.id, procSet order done d)]) []
